@@ -235,7 +235,7 @@ func decodeBuffer(r io.Reader, byteReader io.ByteReader, buf []byte, forCompare 
 				return nil, we.With(e5.With(Offset(offset)), e5.With(StringTooLong))(DecodeError)
 			}
 
-			if forCompare {
+			if forCompare && kind == KindString {
 				length := int(length)
 				step := initDecodeStep
 				var segments func(token *Token) (Proc, error)
@@ -332,7 +332,7 @@ func decodeBuffer(r io.Reader, byteReader io.ByteReader, buf []byte, forCompare 
 				return nil, we.With(e5.With(Offset(offset)), e5.With(BytesTooLong))(DecodeError)
 			}
 
-			if forCompare {
+			if forCompare && kind == KindBytes {
 				length := int(length)
 				step := initDecodeStep
 				var segments func(token *Token) (Proc, error)
